@@ -914,7 +914,7 @@ def q2many(v, tier, pid="C02", own=None, orderonly=False):
 
 @check("C02")
 def c02(tier):
-    return broker_check("C02", tier, [("QosSpec", "paths", 6, 7, "mockSuccess"), ("QosStraySpec", "paths", 6, 7, "mockSuccess"), ("QosResumeSpec", "paths", 6, 7, "mockSuccess")], {"C02", "C01"},
+    return broker_check("C02", tier, [("QosSpec", "paths", 6, 7, "mockSuccess"), ("QosStraySpec", "paths", 6, 7, "mockSuccess"), ("QosResumeSpec", "paths", 6, 7, "mockSuccess"), ("RetQ2Spec", "paths", 5, 6, "mockSuccess")], {"C02", "C01", "C08"},
                         "configuration qosrx: all operation sequences over QoS 2 PUBLISH (2 ids, DUP repeats with other content), PUBREL (3 ids incl. "
                         "unknown), QoS 1 PUBLISH and 6 KB unrelated traffic that wraps the ring; acks on the publisher, hand-over to a witness subscriber. "
                         "Configuration qosstray: two exchanges released in any order with stray PUBREC / PUBCOMP / PUBACK / SUBACK / UNSUBACK packets that carry "
@@ -977,7 +977,7 @@ CONSTANTS
  Kinds = {"ping", "pub", "part1", "part3", "partbig", "backlog"}
  BacklogHold = 14
  DevStalledReceiver = TRUE
- Priors = {"none", "long"}
+ Priors = {"none", "long", "rival"}
 INVARIANTS SilentDropped WillIffExpired Emit
 PROPERTIES ActiveNeverDropped
 """
